@@ -1,5 +1,6 @@
 """Call dispatch: builtins, container/str methods, constructors, contracts, trusted externs, callbacks."""
 import ast
+import os
 import z3
 
 from . import sorts as S
@@ -69,9 +70,165 @@ def dispatch_call(ex, e, st):
     try:
         return _dispatch_call(ex, e, st)
     except Unsupported as u:
+        if 'has no contract' in str(u) or 'neither contract' in str(u):
+            # a helper of the repository without a contract (typically freshly extracted from a function under contract): execute its real body in place
+            r = inline_call(ex, e, st)
+            if r is not None:
+                return r
         if getattr(ex, 'lenient', False) and ('no contract' in str(u) or 'neither contract' in str(u) or 'has no trusted' in str(u)):
             return havoc_unknown_call(ex, e, st, str(u))
         raise
+
+
+INLINE_DEPTH = 2
+
+
+def _inline_target(ex, e, st):
+    """(function AST, module, class name or None, receiver V or None) of a call whose callee is a plain function / method defined in the repository source"""
+    f = e.func
+    if isinstance(f, ast.Attribute):
+        rn = root_name(f)
+        if rn is not None and rn != 'self' and rn not in st.env and rn not in ex.assigned_names() and (rn in ex.mod.imports or rn in ex.mod.classes):
+            dotted = source.resolve_callee(ex.mod, f)
+        else:
+            recv = ex.ev(f.value, st)
+            if recv.ty.kind != 'obj':
+                return None
+            ci = ex.reg.classes.get(recv.ty.cls)
+            if ci is None or ci.kind == 'opaque':
+                return None
+            try:
+                m = source.load(ci.file)
+                return m.function(f'{ci.name}.{f.attr}'), m, ci.name, recv
+            except source.SourceError:
+                return None
+    elif isinstance(f, ast.Name):
+        dotted = source.resolve_callee(ex.mod, f)
+    else:
+        return None
+    if not dotted or not dotted.startswith('lian.'):
+        return None
+    parts = dotted.split('.')
+    for k in range(len(parts) - 1, 0, -1):
+        rel = 'src/' + '/'.join(parts[:k]) + '.py'
+        if os.path.isfile(os.path.join(source.REPO, rel)):
+            try:
+                m = source.load(rel)
+                return m.function('.'.join(parts[k:])), m, None, None
+            except source.SourceError:
+                return None
+    return None
+
+
+def inline_call(ex, e, st):
+    """execute the real body of an uncontracted repository function in place (call-by-value binding of the evaluated arguments, callee locals in a fresh
+    environment, module context switched for name resolution). Not for recursive / decorated / generator / variadic callees, nesting <= INLINE_DEPTH."""
+    stack = getattr(ex, '_inline_stack', [])
+    if len(stack) >= INLINE_DEPTH:
+        return None
+    try:
+        tgt = _inline_target(ex, e, st)
+    except Unsupported:
+        return None
+    if tgt is None:
+        return None
+    fn, mod, cls, recv = tgt
+    key = (mod.relpath if hasattr(mod, 'relpath') else id(mod), fn.name, cls)
+    if key in stack or fn is ex.fn or fn.name == ex.fn.name and cls == ex.cls:
+        return None
+    a = fn.args
+    if a.vararg or a.kwarg or any(isinstance(n, (ast.Yield, ast.YieldFrom, ast.FunctionDef, ast.AsyncFunctionDef, ast.Lambda, ast.Global, ast.Nonlocal, ast.Await))
+                                  for b in fn.body for n in ast.walk(b)):
+        return None
+    for d in fn.decorator_list:
+        if ast.unparse(d) not in ('profile', 'staticmethod'):
+            return None
+    is_static = any(ast.unparse(d) == 'staticmethod' for d in fn.decorator_list)
+    args, kwargs = eval_args(ex, e, st)
+    if recv is not None and not is_static:
+        args = [recv] + args
+    names = [x.arg for x in a.posonlyargs + a.args]
+    if len(args) > len(names):
+        return None
+    bound = dict(zip(names, args))
+    for k, v in kwargs.items():
+        if k in bound or (k not in names and k not in [x.arg for x in a.kwonlyargs]):
+            return None
+        bound[k] = v
+    defaults = dict(zip(names[len(names) - len(a.defaults):], a.defaults))
+    for x, d in zip(a.kwonlyargs, a.kw_defaults):
+        if d is not None:
+            defaults[x.arg] = d
+    for n in names + [x.arg for x in a.kwonlyargs]:
+        if n not in bound:
+            if n not in defaults:
+                return None
+            try:
+                t, ty = const_to_term(source.const_eval(mod, defaults[n]))
+            except (source.ConstError, Unsupported):
+                return None
+            bound[n] = V(t, ty)
+    ex.notes.append(f'inlined the body of {(cls + ".") if cls else ""}{fn.name} (no contract) at {ast.unparse(e)[:60]}')
+    saved = (ex.mod, ex.cls, ex.fn, getattr(ex, '_assigned', None), st.env)
+    ex._inline_stack = stack + [key]
+    caller_env = st.env
+    # callee environment: its parameters; caller locals whose names do not occur anywhere in the callee stay visible (the callee's code cannot read them; loop
+    # specifications written for the caller can)
+    callee_names = {n.id for n in ast.walk(fn) if isinstance(n, ast.Name)} | {x.arg for x in ast.walk(fn) if isinstance(x, ast.arg)}
+    st.env = {k: v for k, v in caller_env.items() if k not in callee_names}
+    st.env.update(bound)
+    ex.mod, ex.cls, ex.fn = mod, (cls or None), fn
+    if hasattr(ex, '_assigned'):
+        del ex._assigned
+    # loops of the inlined body: numbered after the caller's (aligned with a recorded header of the caller's contract when it is missing there)
+    base = []
+    try:
+        from .engine import _recorded_loop_headers, loop_header
+        base = list(_recorded_loop_headers().get(ex.c.name) or [])
+    except Exception:      # noqa
+        pass
+    used = set(ex.loop_ordinals.values())
+    for n in ast.walk(fn):
+        if isinstance(n, (ast.For, ast.While)) and id(n) not in ex.loop_ordinals:
+            h = loop_header(n)
+            cand = [i + 1 for i, bh in enumerate(base) if bh == h and (i + 1) not in used]
+            o = cand[0] if cand else max(list(used) + [len(base), ex.n_loops]) + 1
+            ex.loop_ordinals[id(n)] = o
+            used.add(o)
+    try:
+        outs = ex.block(fn.body, st)
+    finally:
+        ex.mod, ex.cls, ex.fn = saved[0], saved[1], saved[2]
+        if saved[3] is not None:
+            ex._assigned = saved[3]
+        elif hasattr(ex, '_assigned'):
+            del ex._assigned
+        ex._inline_stack = stack
+    res = []
+    for o in outs:
+        o.st.env = dict(caller_env)
+        if o.kind == 'return':
+            res.append(Outcome('value', o.st, o.val))
+        elif o.kind == 'normal':
+            res.append(Outcome('value', o.st, none_v()))
+        elif o.kind in ('break', 'continue'):
+            raise Unsupported('break/continue escaping an inlined body')
+        else:
+            res.append(o)
+    if res and all(o.kind == 'value' for o in res):
+        # all paths of the body return normally: join them exactly into the caller's state object (so that the call can stand in expression position)
+        if len(res) == 1:
+            m, rv = res[0].st, res[0].val
+        else:
+            from .engine import merge_states
+            for o in res:
+                o.st.env['$inline_ret'] = o.val
+            m = merge_states(ex, [o.st for o in res])
+            rv = m.env.pop('$inline_ret')
+        if m is not st:
+            st.pc, st.env, st.heap, st.next_ref, st.ghost, st.depth = m.pc, m.env, m.heap, m.next_ref, m.ghost, m.depth
+        return [Outcome('value', st, rv)]
+    return res
 
 
 def _dispatch_call(ex, e, st):
